@@ -1,5 +1,6 @@
 import CGV.Props.C12
 import CGV.Props.C12Reach
+import CGV.Props.C12Order
 #print axioms CGV.C12.C12_keys
 #print axioms CGV.C12.C12_monotone
 #print axioms CGV.C12.C12_blocks
@@ -9,3 +10,6 @@ import CGV.Props.C12Reach
 #print axioms CGV.C12.C12_name_step
 #print axioms CGV.C12.phaseB_keys
 #print axioms CGV.C12.C12_step_keys
+#print axioms CGV.C12.phaseB_ordered
+#print axioms CGV.C12.C12_step_order
+#print axioms CGV.C12.C12_step_blocks
